@@ -24,6 +24,8 @@ class Case:
     timeout: float = 5.0
     fuel: int = 3_000_000
     skip_model: bool = False
+    before: tuple = ()               # programs evaluated first in the same process (outcomes ignored): the case's own program must
+                                     # behave as it does stand-alone
     big: bool = False                # also evaluate with the verified big-step evaluator (driver command main2)
     timeout_fails: bool = False      # not finishing within `timeout` is itself a failure (termination is the property)
 
@@ -67,6 +69,8 @@ def run_case(case: Case):
     from . import impl, model
     rec = {'tag': case.tag, 'status': 'agree', 'nontrivial': case.nontrivial}
     try:
+        for pre in case.before:
+            impl.run_main(pre, '', None, True, case.timeout)
         if case.mode == 'cli':
             a = impl.run_cli(case.program, case.argv, case.stdin, case.fs, case.timeout)
         elif case.mode == 'events':
